@@ -457,6 +457,7 @@ private theorem preStep_inv (F : Bytes → Bytes) (hs : Nat) (hF : ∀ x, (F x).
     (preStep F b op).binder.length = hs ∧ (preStep F b op).patches = b.patches + (if op.isBuild then 1 else 0) := by
   cases op with
   | build => simp [preStep, buildStep_spec F hs hF b hb, hF, PreOp.isBuild]
+  | marshalOnly => simp [preStep, hb, PreOp.isBuild]
   | edit f => simp [preStep, hb, PreOp.isBuild]
 
 private theorem fold_inv (F : Bytes → Bytes) (hs : Nat) (hF : ∀ x, (F x).length = hs) (ops : List PreOp) (b : Built)
@@ -497,13 +498,13 @@ theorem binder_fresh_after_rebuild (F : Bytes → Bytes) (hs : Nat) (hF : ∀ x,
 /-- the head that goes out is the initial one with the caller's edits applied in order. -/
 theorem sent_head_is_edited (F : Bytes → Bytes) (head0 : Bytes) (hs : Nat) (ops : List PreOp) :
     (sentAfter F (builtInit head0 hs) ops).head =
-      ops.foldl (fun h op => match op with | .build => h | .edit f => f h) head0 := by
+      ops.foldl (fun h op => match op with | .build => h | .marshalOnly => h | .edit f => f h) head0 := by
   have : ∀ (b : Built), (buildStep F b).head = b.head := by
     intro b; unfold buildStep; dsimp only; split
     · split <;> rfl
     · rfl
   have hf : ∀ (ops : List PreOp) (b : Built), (ops.foldl (preStep F) b).head =
-      ops.foldl (fun h op => match op with | .build => h | .edit f => f h) b.head := by
+      ops.foldl (fun h op => match op with | .build => h | .marshalOnly => h | .edit f => f h) b.head := by
     intro ops
     induction ops with
     | nil => intro b; rfl
@@ -514,6 +515,49 @@ theorem sent_head_is_edited (F : Bytes → Bytes) (head0 : Bytes) (hs : Nat) (op
       cases op <;> simp [preStep, this]
   simp only [sentAfter, this, hf]
   rfl
+
+/-! ## `Len()` of the PSK extension does not depend on earlier builds; "*" skips the name check -/
+
+private theorem pskLenCalls_fresh (n : Nat) (e : PskLenState) (h : e.hasSession = false) : pskLenCalls n e = e := by
+  induction n with
+  | zero => rfl
+  | succ n ih => simp [pskLenCalls, pskLen, h, ih]
+
+/-- **the extension length is a function of the session set now**: however many times `Len()` ran
+while no session was loaded (every marshal of `BuildHandshakeStateWithoutSession` calls it), after
+`InitializeByUtls` it is `pskExtLen` of the identities and binders set then, and stays so. -/
+theorem len_after_init_ignores_earlier_calls (n m : Nat) (ids : List (Bytes × Nat)) (binders : List Bytes) :
+    (pskLen (pskLenCalls m (pskInitByUtls (pskLenCalls n pskFresh) ids binders))).1 = pskExtLen ids binders := by
+  rw [pskLenCalls_fresh n pskFresh rfl]
+  induction m with
+  | zero => simp [pskLenCalls, pskLen, pskInitByUtls, pskFresh]
+  | succ m ih =>
+    have : ∀ (k : Nat) (e : PskLenState), e.hasSession = true → e.ids = ids → e.binders = binders →
+        (e.cachedLength = none ∨ e.cachedLength = some (pskExtLen ids binders)) →
+        (pskLen (pskLenCalls k e)).1 = pskExtLen ids binders := by
+      intro k
+      induction k with
+      | zero =>
+        intro e h1 h2 h3 h4
+        rcases h4 with h4 | h4 <;> simp [pskLenCalls, pskLen, h1, h2, h3, h4]
+      | succ k ihk =>
+        intro e h1 h2 h3 h4
+        simp only [pskLenCalls]
+        apply ihk
+        · rcases h4 with h4 | h4 <;> simp [pskLen, h1, h4]
+        · rcases h4 with h4 | h4 <;> simp [pskLen, h1, h2, h4]
+        · rcases h4 with h4 | h4 <;> simp [pskLen, h1, h3, h4]
+        · right; rcases h4 with h4 | h4 <;> simp [pskLen, h1, h2, h3, h4]
+    exact this (m + 1) _ rfl rfl rfl (Or.inl rfl)
+
+/-- `InsecureServerNameToVerify = "*"`: neither `loadSession` nor the full handshake looks at the
+certificate's names, whatever `ServerName` is — so a session cached under a name the certificate
+does not cover is offered again (with `name_scoped`: only under that same name). -/
+theorem star_skips_name_check (cfg : Cfg) (hstar : cfg.nameToVerify = some 0) :
+    dnsName cfg = none ∧ (∀ s, nameOk cfg s = true) ∧
+    (∀ c : ConnIn, c.cfg = cfg → certNameOk c = true) := by
+  have hd : dnsName cfg = none := by simp [dnsName, hstar]
+  refine ⟨hd, fun s => by simp [nameOk, hd], fun c hc => by simp [certNameOk, hc, hd]⟩
 
 /-! ## HelloRetryRequest (D11)
 
@@ -665,7 +709,8 @@ theorem server_never_aborts (T : Tables) (cache : Cache) (c : ConnIn) :
 
 /-- Full statement the property asks for — **false of the unchanged code** (D11):
 `∀ cache c, WF c → (stepConn T cache c).err = none`, where `WF` says only: resumption usable by the
-spec (`skipOnNil`, `OmitEmptyPsk` for PSK parrots), a common version, a certificate valid now.
+spec (`skipOnNil`, `OmitEmptyPsk` for PSK parrots), a common version, a certificate valid now and for the
+name being verified.
 
 **partial**: it holds outside exactly `parrot ∧ identity offered ∧ TLS 1.3 ∧ HelloRetryRequest`:
 whatever is in the cache — stale, from another parrot, with or without EMS, expired — the
@@ -674,7 +719,7 @@ theorem never_breaks_partial (T : Tables) (cache : Cache) (c : ConnIn)
     (hskip : c.cfg.skipOnNil = true) (hv : c.hello.versions ≠ [])
     (hneg : negotiated c ∈ c.hello.versions)
     (hpsk : c.hello.golang = true ∨ c.hello.hasPskExt = false ∨ c.cfg.omitEmptyPsk = true)
-    (hcert : certTimeOk c = true)
+    (hcert : certTimeOk c = true) (hcname : certNameOk c = true)
     (hD11 : ¬ (c.hello.golang = false ∧ isPsk (loadDecision T cache c.cfg c.hello c.now) = true ∧
               negotiated c = vTLS13 ∧ c.srv.hrr = true)) :
     (stepConn T cache c).err = none := by
